@@ -177,8 +177,8 @@ func main() {
 			specs = append(specs, schema.RandomFiles(ctx, *seed, *nRandom)...)
 		}
 		for _, spec := range specs {
-			if v.CoreOnly && !spec.Core {
-				continue
+			if v.CoreOnly && !spec.Core && !(v.Plain && strings.HasPrefix(spec.Name, "ext")) {
+				continue // (the plain twins carry every extension file: C12 drives csproto's accessors on them)
 			}
 			info := &FileInfo{Variant: v.Name, Runtime: v.Runtime, File: spec.Name, Feature: spec.Feature, ProtoFile: spec.FD.GetName(), ProtoPackage: spec.FD.GetPackage(),
 				GoImport: ctx.GoPrefix + "/" + spec.Name, Syntax: spec.FD.GetSyntax(), APIv: v.APIv, PerMsg: v.PerMsg, Unsafe: v.Unsafe, Plain: v.Plain, FMParam: v.FMParam}
